@@ -9,6 +9,7 @@
 -/
 import LiteFSVerif.Proofs.Engine
 import LiteFSVerif.Proofs.Image
+import LiteFSVerif.Proofs.ImportBytes
 
 set_option linter.unusedSimpArgs false
 
@@ -107,5 +108,17 @@ theorem C16_export_exact_no_wal (s : Eng) (dbf : ByteArray) (hdb : s.dbFile = so
     omega
   simp only [this, if_false]
   rw [Nat.add_mul, Nat.one_mul]
+
+/-- engine, byte level: a successful `Import` of an image smaller than 1 GiB (below the lock
+    page) leaves a database file of exactly the image's size in which every byte is the image's
+    byte, except bytes 24..27 (change counter) and 40..43 (schema cookie) of the header page, which
+    are zero — independently of what the database, journal or WAL held before.  (`Export` then
+    returns these bytes: engine model + import suite.) -/
+theorem C16_import_bytes (s s' : Engine.Eng) (data : ByteArray) (h : Engine.importDB s data = .ok s') :
+    ∃ hd, Sqlite.readDBHeader data = .ok hd ∧
+      (hd.pageN > 0 → hd.pageN < 1073741824 / hd.pageSize + 1 →
+        ∃ d', s'.dbFile = some d' ∧ d'.size = hd.pageN * hd.pageSize ∧
+          ∀ b, b < d'.size → BA.getD d' b = Engine.importedByte data b) :=
+  Engine.import_bytes s s' data h
 
 end LiteFSVerif.C16
